@@ -30,10 +30,14 @@ type vsPrepop struct {
 }
 
 type vsOp struct {
-	Op  string  `json:"op"`  // WriteVar | WriteSignedUpdate | GetVar | GetVarWithAttributes | Typed
+	Op  string  `json:"op"`  // WriteVar | WriteSignedUpdate | WriteBlob | GetVar | GetVarWithAttributes | Typed
 	Var int     `json:"var"` // index into cfg.Vars
 	Val ValSpec `json:"val,omitempty"`
 	Key int     `json:"key,omitempty"`
+	// Reuse: hand the store the SAME Marshallable object that an earlier
+	// operation of this run with the same value used (a *SignatureDatabase for
+	// WriteVar, the product of SignEFIVariable for WriteBlob).
+	Reuse bool `json:"reuse,omitempty"`
 }
 
 type varstoreEngine struct{}
@@ -71,11 +75,25 @@ func (e *varstoreEngine) Gen(seed uint64, tier string, run int) *Trace {
 			c.Vars = append(c.Vars, v)
 		}
 	}
+	twin := -1
+	if r.Chance(1, 4) {
+		// a second variable with the same name under another vendor GUID
+		src := c.Vars[r.Intn(len(c.Vars))].Var()
+		c.Vars = append(c.Vars, VarSpec{Name: src.Name, GUID: fmt.Sprintf("%x", r.Bytes(16)), Attrs: uint32(src.Attributes) &^ 0x40})
+		twin = len(c.Vars) - 1
+	}
 	isSecure := func(i int) bool {
 		for _, s := range vsSecure {
 			if c.Vars[i].Sym == s {
 				return true
 			}
+		}
+		return false
+	}
+	secureName := func(i int) bool {
+		switch c.Vars[i].Var().Name {
+		case "PK", "KEK", "db", "dbx":
+			return true
 		}
 		return false
 	}
@@ -85,7 +103,7 @@ func (e *varstoreEngine) Gen(seed uint64, tier string, run int) *Trace {
 	rawvals := []ValSpec{{Kind: "raw", N: 0}, {Kind: "raw", N: 1, Tag: 1}, {Kind: "raw", N: 4, Tag: 2}, {Kind: "raw", N: 7, Tag: 3},
 		{Kind: "raw", N: 48, Tag: 4}, {Kind: "raw", N: r.Range(49, 400), Tag: 5}, {Kind: "bootorder", N: r.Range(1, 6), Tag: 1}}
 	val := func(i int) ValSpec {
-		if isSecure(i) {
+		if isSecure(i) || secureName(i) {
 			return Pick(r, dbvals)
 		}
 		return Pick(r, rawvals)
@@ -104,11 +122,19 @@ func (e *varstoreEngine) Gen(seed uint64, tier string, run int) *Trace {
 	var ops []vsOp
 	for i := 0; i < nops; i++ {
 		vi := r.Intn(len(c.Vars))
-		switch r.Weighted([]int{5, 2, 4, 1, 2}) {
+		switch r.Weighted([]int{5, 2, 4, 1, 2, 2}) {
+		case 5:
+			if vi == twin {
+				ops = append(ops, vsOp{Op: "WriteVar", Var: vi, Val: val(vi), Reuse: true})
+			} else {
+				ops = append(ops, vsOp{Op: "WriteBlob", Var: vi, Val: val(vi), Key: r.Intn(2), Reuse: r.Chance(3, 4)})
+			}
 		case 0:
-			ops = append(ops, vsOp{Op: "WriteVar", Var: vi, Val: val(vi)})
+			ops = append(ops, vsOp{Op: "WriteVar", Var: vi, Val: val(vi), Reuse: r.Chance(1, 3)})
 		case 1:
-			if isSecure(vi) || r.Chance(1, 4) {
+			if vi == twin {
+				ops = append(ops, vsOp{Op: "WriteVar", Var: vi, Val: val(vi)})
+			} else if isSecure(vi) || r.Chance(1, 4) {
 				ops = append(ops, vsOp{Op: "WriteSignedUpdate", Var: vi, Val: val(vi), Key: r.Intn(3)})
 			} else {
 				ops = append(ops, vsOp{Op: "WriteVar", Var: vi, Val: val(vi)})
@@ -224,6 +250,7 @@ func vsExec(c vsCfg, ops []vsOp, x *X) (hist []porcupine.Operation) {
 		x.Logf("prepopulated %s = %s", c.Vars[p.Var].String(), shortHex(val))
 	}
 	api := tfs.Open()
+	objs := map[string]vsObj{}
 	seq := int64(0)
 	writes := map[int]int{}
 	readAfter2 := false
@@ -241,14 +268,52 @@ func vsExec(c vsCfg, ops []vsOp, x *X) (hist []porcupine.Operation) {
 		seq++
 		var pv any
 		switch op.Op {
-		case "WriteVar", "WriteSignedUpdate":
+		case "WriteVar", "WriteSignedUpdate", "WriteBlob":
 			val := op.Val.Bytes()
 			expect := val
 			var werr error
 			func() {
 				defer func() { pv = recover() }()
-				if op.Op == "WriteVar" {
-					werr = api.WriteVar(v, rawVal(val))
+				if op.Op == "WriteBlob" {
+					// the product of SignEFIVariable, written with WriteVar; possibly the same object again
+					pk := Pool()[op.Key%poolSize]
+					key := fmt.Sprint("blob", op.Var, op.Val, op.Key)
+					ob, ok := objs[key]
+					if !ok || !op.Reuse {
+						_, m, err := signature.SignEFIVariable(v, rawVal(val), pk.Key, pk.Cert)
+						if err != nil {
+							harnessf("SignEFIVariable: %v", err)
+						}
+						ob = vsObj{m: m, bytes: m.Bytes()}
+						objs[key] = ob
+					} else {
+						x.Probe("marshallable_reused")
+					}
+					if !vsStoreStrips(v.Name) {
+						expect = ob.bytes
+					}
+					werr = api.WriteVar(v, ob.m)
+				} else if op.Op == "WriteVar" {
+					var m efivar.Marshallable = rawVal(val)
+					if op.Reuse {
+						if _, err := refESLDecode(val); err == nil && vsStoreStrips(v.Name) {
+							// a library database object, shared between writes (and variables) of this run
+							key := fmt.Sprint("db", op.Val)
+							ob, ok := objs[key]
+							if !ok {
+								db, err := signature.ReadSignatureDatabase(bytes.NewReader(val))
+								if err != nil {
+									harnessf("ReadSignatureDatabase of a reference stream: %v", err)
+								}
+								ob = vsObj{m: &db, bytes: val}
+								objs[key] = ob
+							} else {
+								x.Probe("marshallable_reused")
+							}
+							m = ob.m
+						}
+					}
+					werr = api.WriteVar(v, m)
 				} else {
 					pk := Pool()[op.Key%poolSize]
 					if !vsIsSecure(vs) {
@@ -352,6 +417,21 @@ func vsExec(c vsCfg, ops []vsOp, x *X) (hist []porcupine.Operation) {
 	}
 	x.Nontriv = readAfter2
 	return hist
+}
+
+type vsObj struct {
+	m     efivar.Marshallable
+	bytes []byte
+}
+
+// vsStoreStrips: the in-memory store removes an authentication descriptor from
+// values written to variables with these names.
+func vsStoreStrips(name string) bool {
+	switch name {
+	case "PK", "KEK", "db", "dbx":
+		return true
+	}
+	return false
 }
 
 func vsIsSecure(v VarSpec) bool {
